@@ -267,11 +267,25 @@ impl Model {
 
 // ---- generation -------------------------------------------------------------------------------
 
+/// A rectangle that usually straddles an edge of `around` (or lies anywhere, one time in four).
+fn rect_near(d: &mut Dec, around: &Rectangle, max: u32) -> Rectangle {
+    if d.ratio(1, 4) {
+        return Rectangle::new(Point::new(d.i(-6, 18), d.i(-6, 18)), Size::new(d.u(0, max), d.u(0, max)));
+    }
+    let (w, h) = (around.size.width.min(14) as i32, around.size.height.min(14) as i32);
+    let tl = around.top_left + Point::new(d.i(-3, w + 1), d.i(-3, h + 1));
+    Rectangle::new(tl, Size::new(d.u(0, max.min(w as u32 + 4)), d.u(0, max.min(h as u32 + 4))))
+}
+
 pub fn gen_layer(d: &mut Dec) -> Layer {
-    let r = |d: &mut Dec| Rectangle::new(Point::new(d.i(-6, 18), d.i(-6, 18)), Size::new(d.u(0, 9), d.u(0, 9)));
+    gen_layer_near(d, &Rectangle::new(Point::new(0, 0), Size::new(9, 9)))
+}
+
+/// A layer whose rectangle is chosen relative to the bounding box of the target below.
+pub fn gen_layer_near(d: &mut Dec, below: &Rectangle) -> Layer {
     match d.u(0, 6) {
-        0 | 1 => Layer::Clipped(r(d)),
-        2 | 3 => Layer::Cropped(r(d)),
+        0 | 1 => Layer::Clipped(rect_near(d, below, 9)),
+        2 | 3 => Layer::Cropped(rect_near(d, below, 9)),
         4 | 5 => Layer::Translated(Point::new(d.i(-6, 6), d.i(-6, 6))),
         _ => Layer::Converted,
     }
@@ -286,19 +300,30 @@ pub fn gen_parent_box(d: &mut Dec) -> Rectangle {
 }
 
 pub fn gen_op(d: &mut Dec, color_base: u32) -> Op {
-    let area = |d: &mut Dec| Rectangle::new(Point::new(d.i(-6, 14), d.i(-6, 14)), Size::new(d.u(0, 7), d.u(0, 7)));
+    gen_op_near(d, color_base, &Rectangle::new(Point::new(0, 0), Size::new(8, 8)))
+}
+
+/// An operation whose area / points are chosen relative to the bounding box of the stack's top.
+pub fn gen_op_near(d: &mut Dec, color_base: u32, top: &Rectangle) -> Op {
     match d.u(0, 9) {
         0..=2 => {
             let n = d.u(0, 12);
             let mut v: Vec<(Point, u32)> = vec![];
+            let (w, h) = (top.size.width.min(14) as i32, top.size.height.min(14) as i32);
             for k in 0..n {
-                let p = if k > 0 && d.ratio(1, 5) { v[d.idx(v.len())].0 } else { Point::new(d.i(-6, 16), d.i(-6, 16)) };
+                let p = if k > 0 && d.ratio(1, 5) {
+                    v[d.idx(v.len())].0
+                } else if d.ratio(1, 4) {
+                    Point::new(d.i(-6, 16), d.i(-6, 16))
+                } else {
+                    top.top_left + Point::new(d.i(-2, w + 1), d.i(-2, h + 1))
+                };
                 v.push((p, color_base + k));
             }
             Op::DrawIter(v)
         }
         3..=6 => {
-            let a = area(d);
+            let a = rect_near(d, top, 7);
             let full = (a.size.width * a.size.height) as usize;
             let len = match d.u(0, 3) {
                 0 | 1 => full,
@@ -307,7 +332,7 @@ pub fn gen_op(d: &mut Dec, color_base: u32) -> Op {
             };
             Op::FillContiguous(a, (0..len as u32).map(|k| color_base + k).collect())
         }
-        7 | 8 => Op::FillSolid(area(d), color_base),
+        7 | 8 => Op::FillSolid(rect_near(d, top, 7), color_base),
         _ => Op::Clear(color_base),
     }
 }
@@ -315,9 +340,15 @@ pub fn gen_op(d: &mut Dec, color_base: u32) -> Op {
 fn history(d: &mut Dec, cx: &mut Cx, native: bool) -> Res {
     let parent_box = gen_parent_box(d);
     let depth = d.u(0, 3);
-    let stack: Vec<Layer> = (0..depth).map(|_| gen_layer(d)).collect();
+    let mut stack: Vec<Layer> = vec![];
+    let mut top_box = parent_box;
+    for _ in 0..depth {
+        let l = gen_layer_near(d, &top_box);
+        stack.push(l);
+        top_box = Model::new(parent_box, &stack).layers.last().map(|l| l.bbox_exact).unwrap_or(parent_box);
+    }
     let nops = d.u(1, 6);
-    let ops: Vec<Op> = (0..nops).map(|k| gen_op(d, 1 + k * 80)).collect();
+    let ops: Vec<Op> = (0..nops).map(|k| gen_op_near(d, 1 + k * 80, &top_box)).collect();
     cx.describe(|| format!("parent {} box {:?}; stack (innermost first) {:?}; operations {:?}", if native { "native-fill" } else { "draw_iter-only" }, parent_box, stack, ops));
     cx.class(match depth {
         0 => "depth0",
